@@ -32,6 +32,45 @@ Theorem C15_close_signals_end : forall c ops,
                 ~ In OStreamErr items /\ ~ In OEnd items /\ ~ In OShut items.
 Proof. exact c15_close_signals_end. Qed.
 
+(* ---- THE FLUSH CLAUSE: byte streams that buffer internally (BufWriter / TLS-like) ----
+   The monitor (frames_on_wire, part of c15_ok) demands that what reached the WIRE by the time the
+   transport's poll_flush returned Ready(Ok) after a send is one complete frame; C15_monitor above
+   covers it.  The layer below `step` justifies "a Send puts its frame on the wire" for a stream
+   with a staging buffer, scripted partial writes and a flush that answers Pending any number of
+   times (Shipped.bstream / wside / poll_flush). *)
+
+(* every frame the model reports is a complete frame, for every configuration and script *)
+Theorem C15_frames_on_wire : forall c ops, frames_on_wire (fst (run c ops)) = true.
+Proof. exact run_frames_on_wire. Qed.
+
+(* a Transport::poll_flush that returned Ready(Ok) left nothing behind: codec buffer and staging
+   buffer are empty and everything that was in them is on the wire, in order *)
+Theorem C15_flush_ready_means_on_wire : forall w w', poll_flush w = (PReady, w') ->
+  w_buf w' = [] /\ b_stage (w_io w') = [] /\
+  b_wire (w_io w') = b_wire (w_io w) ++ b_stage (w_io w) ++ w_buf w.
+Proof. exact flush_ready_means_on_wire. Qed.
+
+(* a Pending poll_flush loses and reorders nothing, puts nothing on the wire, and uses up script *)
+Theorem C15_flush_pending_keeps_bytes : forall w w', poll_flush w = (PPending, w') ->
+  b_wire (w_io w') = b_wire (w_io w) /\
+  b_stage (w_io w') ++ w_buf w' = b_stage (w_io w) ++ w_buf w /\
+  (length (w_wr w') + w_fl w' < length (w_wr w) + w_fl w)%nat.
+Proof. exact flush_pending_keeps_bytes. Qed.
+
+(* send a frame, poll the flush until Ready: it terminates for EVERY script of partial writes and
+   Pending results, and exactly that frame was added to the wire *)
+Theorem C15_send_flush_on_wire : forall w f, w_buf w = [] -> b_stage (w_io w) = [] -> exists w',
+  flush_until_ready (S (length (w_wr w) + w_fl w)) (start_send_frame w f) = Some w' /\
+  w_buf w' = [] /\ b_stage (w_io w') = [] /\ b_wire (w_io w') = b_wire (w_io w) ++ f.
+Proof. exact send_flush_on_wire. Qed.
+
+(* the seeded fast path (return Ready when the codec buffer is empty, without flushing the stream)
+   is wrong: Ready with bytes still in the staging buffer and nothing on the wire *)
+Theorem C15_flush_skipping_refuted : exists w w1 w2,
+  poll_flush_skipping w = (PPending, w1) /\ poll_flush_skipping w1 = (PReady, w2) /\
+  b_stage (w_io w2) <> [] /\ b_wire (w_io w2) = b_wire (w_io w).
+Proof. exact flush_skipping_refuted. Qed.
+
 (* in-memory channels need no hypothesis at all *)
 Theorem C15_monitor_channels : forall c ops,
   is_framed (codec c) = false -> c15_ok c ops (fst (run c ops)) = true.
@@ -235,6 +274,11 @@ Proof. vm_compute. repeat split; reflexivity. Qed.
 Print Assumptions C15_monitor.
 Print Assumptions C15_monitor_channels.
 Print Assumptions C15_close_signals_end.
+Print Assumptions C15_frames_on_wire.
+Print Assumptions C15_flush_ready_means_on_wire.
+Print Assumptions C15_flush_pending_keeps_bytes.
+Print Assumptions C15_send_flush_on_wire.
+Print Assumptions C15_flush_skipping_refuted.
 Print Assumptions C15_bincode_roundtrip.
 Print Assumptions C15_bincode_roundtrip_response.
 Print Assumptions C15_json_tree_roundtrip.
